@@ -376,7 +376,7 @@ var c12fields = []string{"*", "*::field", "*::tag", "/x/", "/^h/", "mean(*)", "c
 	"sample(*, 3)", "first(/^[xs]/)"}
 var c12dims = []string{"", "host", "*", "/^r/", "time(1m), *", "host, region", "time(1m), nosuch"}
 var c12sources = []string{"m", "m1, m2", "m2, m1, m", "(SELECT * FROM m)", "(SELECT x, s FROM m GROUP BY host)", "(SELECT mean(x) FROM m1 GROUP BY *)", "(SELECT * FROM (SELECT * FROM m2))",
-	"(SELECT x AS z, top(y, host, 2) FROM m), m2", "(SELECT mean(*) FROM m GROUP BY time(1m), /./)", "unknown_measurement", "empty"}
+	"(SELECT x AS z, top(y, host, 2) FROM m), m2", "(SELECT mean(*) FROM m GROUP BY time(1m), /./)", "unknown_measurement", "empty", "(SELECT x FROM m), (SELECT y FROM m1 GROUP BY x)", "(SELECT y FROM m1 GROUP BY x), (SELECT x FROM m)", "(SELECT host, mean(x) FROM m GROUP BY host)"}
 var c12conds = []string{"", "x > 1 AND host = 'a' AND z::integer = 2"}
 
 var c12typeAlts = []influxql.DataType{influxql.Float, influxql.Integer, influxql.Unsigned, influxql.String, influxql.Boolean}
@@ -490,6 +490,16 @@ func c12body(c *xplore.Ctx, repeats int) (text string, fs []ev.Finding, nontrivi
 			fs = append(fs, ev.Finding{Sig: "expansion-differs:" + astx.GenericPath(path) + ":" + astx.ValueClass(a) + "→" + astx.ValueClass(b), Witness: wit,
 				Detail: fmt.Sprintf("model: %s ; RewriteFields: %s ; first difference at %s: %s vs %s", want.String(), got.String(), path, a, b), Case: cs, Rank: rank})
 		}
+		// a mapper that hands out its own long-lived maps must find them untouched, and get the same answer
+		pm := newPersistentMapper(sc)
+		schemaBefore := astx.Dump(astx.Full, pm.cache)
+		if again, err2 := parse().RewriteFields(pm); err2 != nil || astx.Dump(astx.Denoted, again) != astx.Dump(astx.Denoted, got) {
+			fs = append(fs, ev.Finding{Sig: "differs-with-persistent-schema-maps", Witness: wit, Detail: fmt.Sprintf("with a mapper that returns the same maps on every call: %v (%v) vs %v", again, err2, got), Case: cs, Rank: rank})
+		}
+		if after := astx.Dump(astx.Full, pm.cache); after != schemaBefore {
+			sig, d := c14diffSig("schema-maps-modified", schemaBefore, after)
+			fs = append(fs, ev.Finding{Sig: sig, Witness: wit, Detail: "RewriteFields changed the maps the FieldMapper handed out: " + d, Case: cs, Rank: rank})
+		}
 		// determinism: repeated runs on fresh statements and fresh schema maps give the identical result
 		first := astx.Dump(astx.Denoted, got)
 		for i := 0; i < repeats; i++ {
@@ -501,6 +511,36 @@ func c12body(c *xplore.Ctx, repeats int) (text string, fs []ev.Finding, nontrivi
 		}
 	}
 	return wit, fs, hasWild(orig.Fields) || hasWild(orig.Dimensions), false
+}
+
+// persistentMapper returns the same map objects on every call (a schema cache), unlike schemaMapper.
+type persistentMapper struct {
+	*schemaMapper
+	cache map[string]*pmEntry
+}
+
+type pmEntry struct {
+	Fields map[string]influxql.DataType
+	Tags   map[string]struct{}
+}
+
+func newPersistentMapper(sc *schemaMapper) *persistentMapper {
+	pm := &persistentMapper{schemaMapper: sc, cache: map[string]*pmEntry{}}
+	for name := range sc.M {
+		f, d, _ := sc.FieldDimensions(&influxql.Measurement{Name: name})
+		pm.cache[name] = &pmEntry{f, d}
+	}
+	return pm
+}
+
+func (p *persistentMapper) FieldDimensions(m *influxql.Measurement) (map[string]influxql.DataType, map[string]struct{}, error) {
+	if e, ok := p.cache[m.Name]; ok {
+		return e.Fields, e.Tags, nil
+	}
+	if e, ok := p.cache["*"]; ok {
+		return e.Fields, e.Tags, nil
+	}
+	return nil, nil, nil
 }
 
 // c12normalize orders runs of adjacent same-named reference fields by type: the property fixes the order by name only.
